@@ -66,23 +66,41 @@ TrThread ==
     /\ IF E.ev = "tstart" THEN ThreadStart(E.thr) ELSE ThreadEnd(E.thr)
     /\ l' = l + 1 /\ UNCHANGED tid
 
+(* blind: the driver, which emulates CPython (no local trace function for an invocation whose `call` event the agent *)
+(* answered with None), did not deliver this event to the agent                                                  *)
+LoggedBlind(e) == "blind" \in DOMAIN e /\ e.blind
+(* the agent saw nothing of the event: nothing fired, nothing closed *)
+ApplyBlind(e) ==
+    /\ e.fired = <<>> /\ e.closed = <<>>
+    /\ last' = [thr |-> e.thr, ev |-> e.ev, fn |-> Fn(e), line |-> e.line]
+    /\ UNCHANGED <<items, cb, acted>>
+
 TrEvent ==
     /\ Live /\ E.ev \in {"call", "line", "return", "exception"}
     /\ alive[E.thr]
-    /\ SeqToSet(E.fired) = FiredNow(E) /\ Len(E.fired) = Cardinality(FiredNow(E))
     /\ nEv' = nEv + 1
     /\ CASE E.ev = "call" ->
-              /\ stack' = [stack EXCEPT ![E.thr] = Append(@, [fn |-> Fn(E), inv |-> nInv + 1])]
+              \* with the deviation on, an invocation is blind exactly when it began while nothing was installed
+              /\ (IdleFramesBlind => (LoggedBlind(E) = (tps = {})))
+              /\ SeqToSet(E.fired) = FiredNow(E) /\ Len(E.fired) = Cardinality(FiredNow(E))
+              /\ stack' = [stack EXCEPT ![E.thr] = Append(@, [fn |-> Fn(E), inv |-> nInv + 1,
+                                                               blind |-> IdleFramesBlind /\ tps = {}])]
               /\ nInv' = nInv + 1
               /\ Apply(E, nInv + 1)
               /\ UNCHANGED <<invDone>>
          [] E.ev \in {"line", "exception"} ->
               /\ stack[E.thr] # <<>> /\ Top(stack[E.thr]).fn = Fn(E)
-              /\ Apply(E, Top(stack[E.thr]).inv)
+              /\ (IdleFramesBlind => (LoggedBlind(E) = Top(stack[E.thr]).blind))
+              /\ IF Top(stack[E.thr]).blind THEN ApplyBlind(E)
+                   ELSE /\ SeqToSet(E.fired) = FiredNow(E) /\ Len(E.fired) = Cardinality(FiredNow(E))
+                        /\ Apply(E, Top(stack[E.thr]).inv)
               /\ UNCHANGED <<stack, nInv, invDone>>
          [] E.ev = "return" ->
               /\ stack[E.thr] # <<>> /\ Top(stack[E.thr]).fn = Fn(E)
-              /\ Apply(E, Top(stack[E.thr]).inv)
+              /\ (IdleFramesBlind => (LoggedBlind(E) = Top(stack[E.thr]).blind))
+              /\ IF Top(stack[E.thr]).blind THEN ApplyBlind(E)
+                   ELSE /\ SeqToSet(E.fired) = FiredNow(E) /\ Len(E.fired) = Cardinality(FiredNow(E))
+                        /\ Apply(E, Top(stack[E.thr]).inv)
               /\ invDone' = invDone \cup {Top(stack[E.thr]).inv}
               /\ stack' = [stack EXCEPT ![E.thr] = Pop(@)]
               /\ UNCHANGED nInv
